@@ -15,6 +15,7 @@
 #endif
 
 #include <new>
+#include <sched.h>
 #include <unordered_map>
 
 using namespace hz;
@@ -75,12 +76,15 @@ template <class R>
 struct Node : R::template enable_concurrent_ptr<Node<R>, 1> {
   int64_t id;
   uint64_t canary;
+  bool* gone = nullptr; // release probe: set when this node is destroyed
   explicit Node(int64_t i) : id(i), canary(0xC0FFEE00u + (uint64_t)i) {
     xrt::Quiet q;
     ++reg().created;
   }
   ~Node() override {
     canary = 0xdead;
+    if (gone)
+      *gone = true;
     xrt::Quiet q;
     ++reg().destroyed;
     auto it = reg().prot.find(this);
@@ -116,21 +120,22 @@ std::string instr_str(const SInstr& s) {
   }
 }
 
-constexpr int MAXG = 8;
+constexpr int MAXG = 12;
 constexpr int NCELLS = 4; // exhaustive mode: cell0 / cell1 hold nodes (cell1 with mark bit), cell2 is null, cell3 is a marked null pointer
 
-template <class R, int K, bool Dynamic, bool IsHP>
+template <class R, int K, bool Dynamic, bool IsHP, int NG = K + 2>
 struct Env {
   using N = Node<R>;
   using CPtr = typename R::template concurrent_ptr<N, 1>; // one mark bit: marked and marked-null pointers are part of the game
   using MPtr = typename CPtr::marked_ptr;
   using GPtr = typename CPtr::guard_ptr;
-  static constexpr int G = K + 2;
+  static constexpr int G = NG; // K + 2 by default; the wide_ configurations (dynamic strategy) use up to 3K + 2 guards: several growth steps
   static_assert(G <= MAXG, "too many guards");
 
   struct Shared {
     CPtr cell[NCELLS];
     std::atomic<int64_t> next_id{1};
+    std::atomic<int> retirers_done{0}; // release probe: the holder waits until the retiring threads of its generation are done
   };
 
   struct Holder {
@@ -474,7 +479,30 @@ struct Env {
     int iters = 0;
     uint64_t seed = 0;
     uint64_t throws = 0, ops = 0, full_states = 0, over_k = 0;
+    int release_probe = -1; // holder: number of retirers to wait for before the release probe (-1: no probe)
+    uint64_t probe_iters = 0;
+    bool probed = false;
   };
+
+  // "reset / destruction of a guard_ptr releases its protection": once a thread has destroyed all its guards - and nobody else is
+  // around - it must not delay reclamation any more. The thread retires a probe node and keeps passing through reclamation points
+  // (a region_guard, a retired dummy); the probe has to be destroyed within a bound that is far above what the slowest scheme needs.
+  static bool release_probe(Shared& S, int tid, uint64_t& iters) {
+    bool* gone = new bool(false);
+    {
+      N* d = new N(((int64_t)tid << 20) | S.next_id.fetch_add(1, std::memory_order_relaxed));
+      d->gone = gone;
+      GPtr tmp{MPtr(d)};
+      tmp.reclaim();
+    }
+    for (iters = 0; iters < 2000 && !*gone; ++iters) {
+      { typename R::region_guard rg{}; }
+      N* x = new N(((int64_t)tid << 20) | S.next_id.fetch_add(1, std::memory_order_relaxed));
+      GPtr tmp{MPtr(x)};
+      tmp.reclaim();
+    }
+    return *gone;
+  }
 
   static void retire_cell(Shared& S, int c, N* replacement, unsigned mark = 0) {
     N* old = S.cell[c].load(std::memory_order_acquire).get();
@@ -500,6 +528,15 @@ struct Env {
         h->step(in);
       h->deref_all();
       h->fini();
+      if (w.release_probe >= 0 && !h->failed) {
+        while (S.retirers_done.load(std::memory_order_acquire) < w.release_probe)
+          sched_yield();
+        w.probed = true;
+        if (!release_probe(S, w.tid, w.probe_iters))
+          h->fail("protection-not-released",
+                  fmt("after thread %d destroyed all its guard_ptrs (and every other thread of the generation was done) a node it retired was "
+                      "not reclaimed within %" PRIu64 " further retirements / region_guards: the thread still delays reclamation", w.tid, w.probe_iters));
+      }
       w.throws = h->throws;
       w.ops = h->ops;
       w.full_states = h->full_states;
@@ -516,6 +553,7 @@ struct Env {
         }
         retire_cell(S, c, nn, rng.chance(1, 3) ? 1 : 0); // also marked nodes and marked null pointers
       }
+      S.retirers_done.fetch_add(1, std::memory_order_release);
     } else {
       for (int c = 0; c < NCELLS; ++c)
         retire_cell(S, c, nullptr);
@@ -566,9 +604,28 @@ struct Env {
         w.sh = S;
         w.role = 0;
         int n = rng.chance(1, 4) ? rng.range(40, 120) : rng.range(8, 40);
+        if (G > K + 2 && rng.chance(1, 2)) {
+          // wide configurations: let the slot array grow several times (every guard acquires, eras bumped in between so that
+          // hazard_eras guards do not share a slot), then release in LIFO / FIFO / random order before the random part
+          int upto = rng.range(K + 1, G);
+          for (int k = 0; k < upto; ++k) {
+            w.prog.push_back(SInstr{O_ACQUIRE, (uint8_t)k, 0, (uint8_t)rng.below(2)});
+            if (!IsHP)
+              w.prog.push_back(SInstr{O_BUMP, 0, 0, 0});
+          }
+          int how = (int)rng.below(4); // 0 LIFO, 1 FIFO, 2 random subset, 3 keep
+          for (int k = 0; k < upto && how != 3; ++k) {
+            int idx = how == 0 ? upto - 1 - k : k;
+            if (how != 2 || rng.chance(1, 2))
+              w.prog.push_back(SInstr{O_RESET, (uint8_t)idx, 0, 0});
+          }
+        }
         for (int k = 0; k < n; ++k)
           w.prog.push_back(random_instr(rng, true));
         ws.push_back(std::move(w));
+      }
+      if (nholders == 1) {
+        ws[0].release_probe = S->retirers_done.load(std::memory_order_relaxed) + (with_retirer ? 1 : 0);
       }
       if (with_retirer) {
         Worker w{};
@@ -603,6 +660,10 @@ struct Env {
       for (auto& w : ws) {
         throws += w.throws;
         ops += w.ops;
+        if (w.probed) {
+          counters().add("release_probes");
+          counters().max("max_release_probe_iterations", w.probe_iters);
+        }
         full += w.full_states;
         overk += w.over_k;
         if (w.role == 0) {
@@ -835,6 +896,13 @@ void reg_cfg(const char* base) {
   }
 }
 
+template <class R, int K, bool IsHP>
+void reg_wide(const char* base) {
+  constexpr int NG = 3 * K + 2 > MAXG ? MAXG : 3 * K + 2;
+  using E = Env<R, K, true, IsHP, NG>;
+  table().push_back({fmt("wide_%s_dyn_k%d", base, K), [](const ExecCtx& c, ExecOut& o) { E::run_random(c, o); }});
+}
+
 template <int K>
 void reg_k() {
   using HPs = xr::hazard_pointer<>::with<xp::allocation_strategy<xr::hp_allocation::static_strategy<K, 0, 1>>>;
@@ -845,6 +913,8 @@ void reg_k() {
   reg_cfg<HPd, K, true, true>("hp");
   reg_cfg<HEs, K, false, false>("he");
   reg_cfg<HEd, K, true, false>("he");
+  reg_wide<HPd, K, true>("hp");
+  reg_wide<HEd, K, false>("he");
 }
 } // namespace
 
